@@ -29,6 +29,16 @@ Qed.
 Lemma cycle_guard_spec : cycle_guard_per_branch = true.
 Proof. reflexivity. Qed.
 
+(** hier.py _from_dict_value: empty_is_none reads the empty text and the empty byte string as
+    null, and nothing else (0, 0.0, False stay what they are) *)
+Lemma empty_is_none_spec : ein_empty_str = true /\ ein_empty_bytes = true.
+Proof. split; reflexivity. Qed.
+
+(** model/binary.py ByteArray.to_base64: one text for the concatenation of the chunks, also
+    when there is no chunk *)
+Lemma bytes_base64_spec : bytes_encoded_as_one = true /\ bytes_no_chunks_ok = true.
+Proof. split; reflexivity. Qed.
+
 (** hier.py _object_to_doc: a single-occurrence Array class is unwrapped, a repeated one is not *)
 Lemma strip_cond_single : strip_cond true (Fin 1) (Fin 1) = true.
 Proof. reflexivity. Qed.
